@@ -42,7 +42,8 @@ CHECKS = {
         "worker awaits In[id], reads, and passes In[(id+1)%n] exactly once on every path (likewise Out around MergeWorker); in "
         "unordered mode no ring mutex is touched and merging happens after join under a mutex; rings are created and locked "
         "before any thread starts; no application code reaches the shared reader or the protocol's members. These are "
-        "necessary conditions of frame-exactly-once/in-order/no-deadlock; breaking any of them breaks the property for some schedule.",
+        "necessary conditions of frame-exactly-once/in-order/no-deadlock; breaking any of them breaks the property for some schedule."
+        + 'Also: exactly the workers 0..nthreads_-1 are created, so the modulus of the hand-over rings equals the number of workers and ring mutexes. ',
    note="Not decided: byte-identical output across thread counts, what a subclass' MergeWorker/EvalConfiguration computes "
         "exception paths (EH edges off), fairness. Deadlock freedom is "
         "argued from the verified token protocol, not model-checked."),
@@ -52,7 +53,8 @@ CHECKS = {
         "weighted sum of the property (positions only through BC(r0,pos)+r0 with r0 the first parent, velocity with weight_, "
         "force with force_weight_=d/w), for every frame and box because it is an identity of the folded dataflow; the "
         "half-box comparison guards every CFG path to setPos except for open boxes; the frame's box is installed before any "
-        "map runs; Initialize normalises w and d, stores d_i/w_i and throws on the stated inconsistencies.",
+        "map runs; Initialize normalises w and d, stores d_i/w_i and throws on the stated inconsistencies."
+        + 'Also: inside the loop over the listed atoms Map_Sphere::Initialize only rejects (throws), never skips, so every listed atom enters the mass sum, the periodic-image reference and the half-box test. ',
    note="Obligations are structural/algebraic identities of the current source; holding implies the invariance clauses "
         "(whole-box-vector displacement of non-first parents, rigid translation) given C02. Not decided: floating-point "
         "rounding, the parts of CG topology creation outside the definition tables of R1.6, csg_map's format pairs (C08)."),
@@ -73,7 +75,8 @@ CHECKS = {
         "functions interpolate, f2 is the curvature, the one-sided slope coefficients are the derivatives from the left/right "
         "interval and the rows built in Interpolate/AddBCToFitMatrix are exactly the C1 conditions (so the first derivative is "
         "continuous on any non-uniform grid); natural/periodic boundary rows; Akima pieces match values and slopes; grids end at max; "
-        "smoothing keeps end points and straight lines; csg_resample derives value and derivative from one spline on the same grid.",
+        "smoothing keeps end points and straight lines; csg_resample derives value and derivative from one spline on the same grid."
+        + "Also: csg_resample's search for the input point matching an output point treats abscissae that agree up to rounding as the same point, also at x = 0 (representatives), and neighbouring grid points as different. ",
    note="Not decided: least-squares optimality of Fit, numerical conditioning of the QR solves, behaviour on data. Trusted: clang "
         "front end, sympy polynomial arithmetic."),
  "C08": dict(cat="other", ref="DESIGN.md section 4 C08",
@@ -102,7 +105,8 @@ CHECKS = {
         "correlation blocks, box volume); the two-body output is V norm n(r)/(4/3 pi (x2^3-x1^3)) with the exact shell volume and "
         "CalcDeltaS applies its exact inverse to the target; bonded/three-body outputs are normalised to unit integral; the IMC block is "
         "-(<SiSj>-<Si><Sj>^T) mirrored by transpose; every accumulator updated while merging is reset by ClearAverages; block output "
-        "writes before clearing; per-frame histograms are cleared before filling; values go to the nearest bin centre.",
+        "writes before clearing; per-frame histograms are cleared before filling; values go to the nearest bin centre."
+        + 'Also: every per-block accumulator update of MergeWorker (frame count, average volume, means, correlations) precedes the block output and its ClearAverages. ',
    note="Identities of formulas in the current source. Not decided: agreement with an independent recomputation on data, the pair "
         "search (C03), bin memory safety (C13), the norm_ factors set in BeginEvaluate (2/(N1N2) vs 1/(N1N2))."),
  "C06": dict(cat="other", ref="DESIGN.md section 4 C06",
@@ -112,7 +116,8 @@ CHECKS = {
         "file is read back with the layout it was written; every csg_fmatch contribution lands in the row of its own force "
         "component/atom/frame with Newton-3 signs and b_ uses the same rows; both least-squares variants clear their accumulators per "
         "block; the constrained solve works in the null space of the constraints (head of Q^T x forced to zero) so constraints hold "
-        "exactly; the spline constraint rows are the C1 conditions.",
+        "exactly; the spline constraint rows are the C1 conditions."
+        + 'Also (shared with C07): the bond and angle gradients that fill the bonded rows of the force-matching matrix equal the derivative of EvaluateVar and sum to zero (dihedral in the thorough tier). ',
    note="Necessary structural conditions; holding does not establish numerical accuracy or that fmatch reproduces representable force "
         "functions on data (needs execution). Trusted: Eigen decompositions."),
  "C18": dict(cat="other", ref="DESIGN.md section 4 C18",
@@ -130,7 +135,8 @@ CHECKS = {
         "missing REQUIRED options and OPTIONAL leftovers are handled by guards that use the reserved keywords consistently; extra list "
         "elements are copies of the pristine default element (no leakage between list entries); every one of the shipped option "
         "descriptions resolves its links, has well-formed choices, defaults that satisfy their own choices and distinct list tags; "
-        "XML output escapes values and attributes so that written trees load back; bool accepts exactly the documented literals.",
+        "XML output escapes values and attributes so that written trees load back; bool accepts exactly the documented literals."
+        + 'Also: a multi-selection value is valid exactly when every word is a declared choice (the word loop or all_of term run abstractly on two words); float+/int+ reject negative values, decided on the folded result. ',
    note="Not decided: the complete merge semantics on arbitrary user trees, expat's behaviour, numeric lexical_cast details. The lint "
         "covers xtp/share/xtp/xml and its sub-packages (csg_defaults.xml.in is a template without choices attributes)."),
  "C10": dict(cat="other", ref="DESIGN.md section 4 C10",
@@ -148,7 +154,8 @@ CHECKS = {
    text="Decides only the status-honesty clause: Success can be written solely by storeConvergedData, which solve reaches only when "
         "checkConvergence returned true; that predicate is 'all requested residual norms < tol_'; every run of solve assigns the status "
         "before it can return, so a reused solver cannot report a stale Success; unconverged roots are zeroed and reported as "
-        "NoConvergence; accepted option literals equal the shipped choices.",
+        "NoConvergence; accepted option literals equal the shipped choices."
+        + 'Also decides two necessary conditions of the convergence clauses: extendProjection builds one correction for every unconverged tracked root (all tracked roots visited, consecutive new columns, resize by the unconverged count), and the cached product AV stays A*V (Ritz vectors q = V U, residues AV U - q diag(lambda), appended columns A*V_new, restart transforms AV and the retained vectors by the same matrix). ',
    note="NOT decided - and this is most of the property: returned values being the lowest eigenvalues, orthonormality, residual "
         "bounds, convergence for diagonally dominant matrices, the Hamiltonian mode. Those are numerical and outside static analysis. "
         "xtp is not built here; units parsed with synthesised flags."),
@@ -167,7 +174,8 @@ CHECKS = {
    text="Decides the structural clauses: access levels map to the right HDF5 modes and a read-only file cannot hand out a writer; every "
         "value kind the writer stores has a reader; the matrix writer and reader use identical hyperslab selections and transfer "
         "spaces (so the stored layout is the read layout for every shape); reading a missing name or any HDF5 failure becomes a thrown "
-        "std::runtime_error; re-writing an existing name unlinks and re-creates the object (so the old value is replaced for any new shape).",
+        "std::runtime_error; re-writing an existing name unlinks and re-creates the object (so the old value is replaced for any new shape)."
+        + 'Also: every construction of a CheckpointWriter from a group in checkpoint.cc lies behind the READ rejection; list members are written and fetched by the same name function of the position. ',
    note="Not decided: HDF5's behaviour, bit-identity of the transferred values, non-ASCII strings, the table-row (checkpointtable.h) path. "
         "xtp is parsed, not built; the overwrite defect was replayed with a stand-alone harness (replays/C17_overwrite.cc) and fixed."),
  "C19": dict(cat="other", ref="DESIGN.md section 4 C19",
@@ -175,7 +183,8 @@ CHECKS = {
    text="Decides the point-wise formulas of update_ibi_pot.pl (kT ln(g_cur/g_tgt) under both-positive guard, continuation with flag o, both "
         "sweeps alike), dist_boltzmann_invert.pl (-kT ln(P/norm), norm table), table_linearop.pl, potential_shift.pl (shift value: last point "
         "or minimum over flagged points with a defined()-test), table_smooth.pl (stencils, flag guard, unflagged points kept) and "
-        "table_integrate.pl (trapezoid recurrences from either end), and that each script writes the grid and flag arrays it read.",
+        "table_integrate.pl (trapezoid recurrences from either end), and that each script writes the grid and flag arrays it read."
+        + 'Also: table_scale.pl (prefactor interpolated with weight 0 at the first and 1 at the last point) and table_extrapolate.pl (every extrapolation function continues value and slope at the anchor; sweeps leftwards from the first and rightwards from the last flagged point). ',
    note="Not decided: shell wrappers (csg_table, csg_call), table_combine/table_scale/table_extrapolate, csg_resample-based differentiation and "
         "its inverse relation to integration (numerical), CsgFunctions.pm's parsing loops. No script is executed; perl only compiles them."),
  "C16": dict(cat="other", ref="DESIGN.md section 4 C16 and section 9.6",
@@ -185,7 +194,8 @@ CHECKS = {
         "numbering; the node content built from a bead carries name and mass; GraphDistVisitor labels the start vertex 0 and a first-visited "
         "vertex with the label of the other end of the discovering edge plus one and never relabels; exec explores exactly the unexplored end; "
         "the breadth-first queue is first-in-first-out by level and only queues edges towards unexplored vertices; singleNetwork is the "
-        "conjunction (all vertices reached) and (no isolated node). Breaking any of these breaks the property for some graph.",
+        "conjunction (all vertices reached) and (no isolated node). Breaking any of these breaks the property for some graph."
+        + 'Also: the breadth-first queue discipline of Graph_BF_Visitor (new edges never join the level queue being drained; the front queue is popped and dropped when drained) and a fresh graph copy and visitor per candidate start vertex in findStructureId. ',
    note="NOT decided (needs the dynamics of the traversal over arbitrary graphs, i.e. execution or model checking - a different family): that the "
         "traversals reach every reachable vertex for every graph, that the labels are shortest-path hop counts for every edge order, connected-"
         "component extraction (decoupleIsolatedSubGraphs), reduceGraph/expandGraph round trips, the choice among equal-degree start vertices in "
@@ -194,7 +204,8 @@ CHECKS = {
    technique="symbolic folding of eeInteractor::FillTholeInteraction (helpers and std::pair results inlined) with the inter-site distance as a positive atom and exact identities read off the folded tensor; rank gating of VSiteA<N>: every (rank a of A) x (rank b of B) block is accumulated exactly once for every instantiation and every rank of B",
    text="THIN partial claim: decides only the last clause of the property - the damped dipole-dipole interaction tensor is -3 l5 a a^T + l3 I "
         "over the unit vector, hence symmetric; in the undamped branch l3 = l5 = R^-3 and the tensor is traceless; the damping factors "
-        "are (1-e^-u) and (1-(1+u)e^-u) so the tensor tends to the undamped one at large separation - and that the monopole entry is q/R.",
+        "are (1-e^-u) and (1-(1+u)e^-u) so the tensor tends to the undamped one at large separation - and that the monopole entry is q/R."
+        + 'Also: callers that contract VSiteA<N>(A,B) with Q(A) use N = 9 whenever rank(A) = 2, over all nine rank pairs; the charge-charge entry starts as q_B/|posB - posA|. ',
    note="NOT decided (the bulk): exchange symmetry of the pair energy, translation/rotation invariance, the rank-1/2 interaction blocks, the "
         "point-charge-cluster limit, the field/energy derivative relation. These need path-sensitive evaluation of the if-constexpr/rank "
         "branches of VSiteA<N> or execution - outside this family. xtp is parsed, not built."),
